@@ -4,8 +4,8 @@ import (
 	"fmt"
 	"time"
 
-	gogotypes "github.com/cosmos/gogoproto/types"
 	sdk "github.com/cosmos/cosmos-sdk/types"
+	gogotypes "github.com/cosmos/gogoproto/types"
 
 	basetypes "github.com/regen-network/regen-ledger/x/ecocredit/v3/base/types/v1"
 	baskettypes "github.com/regen-network/regen-ledger/x/ecocredit/v3/basket/types/v1"
@@ -85,7 +85,7 @@ func Criteria() Spec {
 			acts = append(acts, CreateBatch(A, "C01-001", s, end, true, nil, Iss(B, "10", "0"), Iss(C, "2", "0")))
 		}
 		acts = append(acts,
-			CreateBatch(A2, "C02-001", date(2023, 6, 1), end, true, nil, Iss(B, "10", "0")),   // class not allowed
+			CreateBatch(A2, "C02-001", date(2023, 6, 1), end, true, nil, Iss(B, "10", "0")),  // class not allowed
 			CreateBatch(A, "BIO01-001", date(2023, 6, 1), end, true, nil, Iss(B, "10", "0")), // other credit type (basket creation refuses to list such a class)
 			mkBasket("KNONE", true, nil, "C01"),
 			mkBasket("KMIN", false, &baskettypes.DateCriteria{MinStartDate: gts(date(2020, 1, 1))}, "C01"),
@@ -112,12 +112,12 @@ func Criteria() Spec {
 			TakeAll(B, k, true), TakeAll(B, k, false))
 	}
 	evs = append(evs,
-		fix(Put(B, K0, BC(den[0], "0.5"), BC(den[5], "1.5"), BC(den[0], Eps))),     // several credits, same batch twice
-		fix(Put(C, K0, BC(den[1], "2"), BC(den[6], "2"))),                            // the tie pair, by another depositor
-		fix(Put(C, K0, BC(den[1], "2.000001"))),                                      // more than held
-		fix(Put(D, K0, BC(den[1], "1"))),                                             // holds nothing
-		fix(Put(B, KM, BC(den[1], "10"))),                                            // whole balance
-		fix(Put(B, K0, BC(den[2], "1e-6"))),                                          // scientific notation, smallest unit
+		fix(Put(B, K0, BC(den[0], "0.5"), BC(den[5], "1.5"), BC(den[0], Eps))), // several credits, same batch twice
+		fix(Put(C, K0, BC(den[1], "2"), BC(den[6], "2"))),                      // the tie pair, by another depositor
+		fix(Put(C, K0, BC(den[1], "2.000001"))),                                // more than held
+		fix(Put(D, K0, BC(den[1], "1"))),                                       // holds nothing
+		fix(Put(B, KM, BC(den[1], "10"))),                                      // whole balance
+		fix(Put(B, K0, BC(den[2], "1e-6"))),                                    // scientific notation, smallest unit
 		fix(BankSend("BankSend(B->D,1500000 KNONE)", B, D, coin(K0, 1500000))),
 		TakeAll(D, K0, false),
 		fix(dateCrit("min=2019-12-31T23:59:59.999999999", KM, G, &baskettypes.DateCriteria{MinStartDate: gts(c11Starts[2])})),
